@@ -89,17 +89,28 @@ Apply(x, op, args, resps, crash) ==
   /\ hist' = Append(hist, [op |-> op, args |-> args, resps |-> resps, crash |-> crash, pan |-> x.pan, stop |-> x.stop,
                            o |-> x.o, exp |-> IF EmitAll THEN Proj(s', st', env') ELSE NULL])
 
+\* LATE STRATEGY ANSWER.  A round may be left while the consensus manager goroutine is still inside a strategy call made
+\* for it (Consider / Choose / Decide).  EnterRound for the new round goes through the same goroutine, so the state
+\* machine waits in that send until the strategy returns; the answer is sent on the result channel of the round that was
+\* LEFT (every round gets fresh 1-buffered channels in RoundLifecycle.Reset) and is never read.  The environment gives
+\* that late answer right after it has answered the round entrance: late = the answer ("none": the strategy was idle).
+LateAnswer(x, a) == IF a.kind = "VRV" /\ x.s.cm \in {"Consider", "Choose", "Decide"} THEN "A" ELSE "none"
+Unblock(x, late) == IF late = "none" THEN x ELSE [x EXCEPT !.s.cm = "idle"]
+WithLate(a, late) == IF late = "none" THEN a ELSE a @@ [late |-> late]
+
 \* finish a macro step: every round entrance it makes is answered by the environment (at most two)
 Finish(x0, op, args, crash) ==
   LET xa == Adv(x0) IN
   IF ~Pending(xa) THEN Apply(xa, op, args, <<>>, crash)
   ELSE \E a \in EntranceResponses(xa.s.H, xa.s.R) :
-         LET x1 == Adv(Enter([xa EXCEPT !.needEntrance = FALSE], a)) IN
-         IF ~Pending(x1) THEN Apply(x1, op, args, <<a>>, crash)
+         LET la == LateAnswer(xa, a)
+             x1 == Adv(Enter([Unblock(xa, la) EXCEPT !.needEntrance = FALSE], a)) IN
+         IF ~Pending(x1) THEN Apply(x1, op, args, <<WithLate(a, la)>>, crash)
          ELSE \E b \in EntranceResponses(x1.s.H, x1.s.R) :
-                LET x2 == Adv(Enter([x1 EXCEPT !.needEntrance = FALSE], b)) IN
+                LET lb == LateAnswer(x1, b)
+                    x2 == Adv(Enter([Unblock(x1, lb) EXCEPT !.needEntrance = FALSE], b)) IN
                 /\ ~Pending(x2)
-                /\ Apply(x2, op, args, <<a, b>>, crash)
+                /\ Apply(x2, op, args, <<WithLate(a, la), WithLate(b, lb)>>, crash)
 
 Crashes == IF AllowCrash THEN {FALSE, TRUE} ELSE {FALSE}
 
